@@ -352,4 +352,53 @@ def emit():
     may_poke = fixpoint((), skip_guard=serve_guards)   # with nothing "protecting": can a poke be reached at all?
     L.append('Definition may_poke_serving : list bool := [' + '; '.join(coq_bool(b) for b in may_poke) + '].')
     L.append('Definition serve_false_guards : list nat := [' + '; '.join(str(GUARDS.index(g)) for g in serve_guards) + '].')
+    # ---- atomicity: composite operations are ONE outermost lock section -------------------------
+    # greatest fixpoint: a function is quiet when no store and no lock acquisition is reachable from it
+    quiet = [True] * n
+    def loud(it):
+        if it[0] in ('poke', 'with'):
+            return True
+        if it[0] == 'call':
+            return any(not quiet[t] for t in resolve(it[1]))
+        if it[0] == 'guard':
+            return any(loud(x) for x in it[2])
+        if it[0] == 'alt':
+            return any(loud(x) for x in it[1])
+        return False
+    changed = True
+    while changed:
+        changed = False
+        for i, f in enumerate(fns):
+            if quiet[i] and any(loud(it) for it in f.body):
+                quiet[i] = False
+                changed = True
+    L.append('Definition quiet_fns : list bool := [' + '; '.join(coq_bool(b) for b in quiet) + '].')
+    ATOMIC = ['FatPath.unlink', 'FatPath.rename', 'FatPath.mkdir', 'FatPath.rmdir', 'FatPath.touch', 'FatPath.write_bytes',
+              'FatPath.write_text', 'FatPath.read_bytes', 'FatPath.read_text', 'FatPath.iterdir', 'FatPath.glob', 'FatPath.rglob',
+              'FatFile.write', 'FatFile.truncate', 'FatFile.readall']
+    for fid in ATOMIC:
+        if fid not in index:
+            raise TranslateError(f'{fid}: operation expected to be one exclusive section is missing')
+        # the sequential reading of the top level (Fat/SkelDefs.v exec_seq) needs: no lock section, and no call of a
+        # function that takes a lock or stores, inside a loop that is itself outside every lock section
+        fn = fns[index[fid]]
+        def walk(nodes, in_loop, in_lock):
+            for nd in nodes:
+                if isinstance(nd, (ast.FunctionDef, ast.AsyncFunctionDef, ast.ClassDef, ast.Lambda)):
+                    continue
+                if isinstance(nd, ast.With) and any(LOCK_RE.match(ast.unparse(i.context_expr)) or DIRTY_RE.match(ast.unparse(i.context_expr))
+                                                     for i in nd.items):
+                    if in_loop and not in_lock:
+                        raise TranslateError(f'{fid}: a lock section inside a loop: the operation is not one exclusive section')
+                    walk(nd.body, in_loop, True)
+                    continue
+                if isinstance(nd, (ast.For, ast.While, ast.ListComp, ast.SetComp, ast.DictComp, ast.GeneratorExp)) and not in_lock:
+                    sub = Extract(fn, known)
+                    items = sub.stmts([nd]) if isinstance(nd, ast.stmt) else sub.exprs(nd)
+                    if any(loud(it) for it in items):
+                        raise TranslateError(f'{fid}: a loop outside every lock section reaches a lock or a store: not one exclusive section')
+                    continue
+                walk(list(ast.iter_child_nodes(nd)), in_loop, in_lock)
+        walk(fn.node.body, False, False)
+    L.append('Definition atomic_entries : list nat := [' + '; '.join(str(index[fid]) for fid in ATOMIC) + '].')
     return '\n'.join(L) + '\n'
